@@ -19,7 +19,7 @@ from django_evolution.consts import UpgradeMethod
 from django_evolution.errors import EvolutionExecutionError
 from django_evolution.evolve.base import BaseEvolutionTask
 from django_evolution.models import Evolution
-from django_evolution.mutations import AddField
+from django_evolution.mutations import AddField, RenameModel
 from django_evolution.mutators import AppMutator
 from django_evolution.signals import (applied_evolution,
                                       applying_evolution,
@@ -29,7 +29,8 @@ from django_evolution.support import supports_migrations
 from django_evolution.utils.apps import get_app_label, get_legacy_app_label
 from django_evolution.utils.datastructures import (filter_dup_list_items,
                                                    merge_dicts)
-from django_evolution.utils.evolutions import (get_app_pending_mutations,
+from django_evolution.utils.evolutions import (get_app_mutations,
+                                               get_app_pending_mutations,
                                                get_app_upgrade_info,
                                                get_applied_evolutions,
                                                get_evolution_sequence,
@@ -1231,6 +1232,48 @@ class EvolveAppTask(BaseEvolutionTask):
             'upgrade_method': upgrade_method,
         }
 
+    def _get_pending_renamed_model_names(self, app_sig):
+        """Return the new names of models renamed by pending evolutions.
+
+        Args:
+            app_sig (django_evolution.signature.AppSignature):
+                The stored signature of the app.
+
+        Returns:
+            set of unicode:
+            The names that models found in the stored signature will have
+            once all pending ``RenameModel`` mutations are applied.
+        """
+        if self._evolutions is not None:
+            mutations = list(itertools.chain.from_iterable(
+                evolution['mutations']
+                for evolution in self._evolutions
+            ))
+        else:
+            database_name = self.evolver.database_name
+            mutations = get_app_mutations(
+                app=self.app,
+                evolution_labels=get_unapplied_evolutions(
+                    app=self.app,
+                    database=database_name),
+                database=database_name)
+
+        model_names = set(
+            model_sig.model_name
+            for model_sig in app_sig.model_sigs
+        )
+        renamed_model_names = set()
+
+        for mutation in mutations:
+            if (isinstance(mutation, RenameModel) and
+                mutation.old_model_name in model_names):
+                model_names.discard(mutation.old_model_name)
+                model_names.add(mutation.new_model_name)
+                renamed_model_names.discard(mutation.old_model_name)
+                renamed_model_names.add(mutation.new_model_name)
+
+        return renamed_model_names
+
     def prepare(self, hinted=False, **kwargs):
         """Prepare state for this task.
 
@@ -1256,6 +1299,27 @@ class EvolveAppTask(BaseEvolutionTask):
             app=app,
             db_state=evolver.database_state)
 
+        # See if we're already tracking this app in the signature.
+        app_sig = (project_sig.get_app_sig(app_label) or
+                   project_sig.get_app_sig(self.legacy_app_label))
+        app_sig_is_new = app_sig is None
+        self.app_sig_is_new = app_sig_is_new
+
+        if new_models and not app_sig_is_new and not hinted:
+            # A model with a new table name may be an existing model that
+            # a pending evolution is about to rename. It must not be
+            # created (the rename would then fail, as the table would
+            # already exist), nor be put into the signature as a new model.
+            renamed_model_names = self._get_pending_renamed_model_names(
+                app_sig)
+
+            if renamed_model_names:
+                new_models = [
+                    model
+                    for model in new_models
+                    if model._meta.object_name not in renamed_model_names
+                ]
+
         logger.debug('New models for %s: %r', app_label, new_models)
 
         self.new_models = new_models
@@ -1263,12 +1327,6 @@ class EvolveAppTask(BaseEvolutionTask):
             model._meta.object_name
             for model in new_models
         ]
-
-        # See if we're already tracking this app in the signature.
-        app_sig = (project_sig.get_app_sig(app_label) or
-                   project_sig.get_app_sig(self.legacy_app_label))
-        app_sig_is_new = app_sig is None
-        self.app_sig_is_new = app_sig_is_new
 
         orig_upgrade_method = None
         upgrade_method = None
